@@ -150,7 +150,14 @@ pub fn gen_case(t: &mut Tape) -> Case {
     // a generic method whose type parameter appears in no argument and not in the return type (static selectors:
     // generic methods are not dyn-compatible): the caller names it with a turbofish, the forwarding call has to pass it on
     let phantom = !dynamic && t.chance(1, 4);
-    let (phantom_decl, phantom_impl) = if phantom {
+    // ... or appears in an argument type only through an associated type (`W::Out`), which infers nothing either
+    let phantom_proj = phantom && t.chance(1, 3);
+    let (phantom_decl, phantom_impl) = if phantom_proj {
+        (
+            "    fn sized<W: Proj>(&self, x: W::Out) -> String;\n",
+            "    fn sized<W: Proj>(&self, x: W::Out) -> String { let __r = format!(\"SZ|{}|{:?}|{}\", rt::addr(self), x, W::NAME); rt::trace(__r.clone()); __r }\n",
+        )
+    } else if phantom {
         (
             "    fn sized<W: ::core::fmt::Debug + Default, const K: usize>(&self, x: i32) -> String;\n",
             "    fn sized<W: ::core::fmt::Debug + Default, const K: usize>(&self, x: i32) -> String { let __r = format!(\"SZ|{}|{}|{:?}|{}\", rt::addr(self), x, W::default(), K); rt::trace(__r.clone()); __r }\n",
@@ -221,6 +228,7 @@ pub fn gen_case(t: &mut Tape) -> Case {
     let at = if use_async_trait { "#[::async_trait::async_trait]\n" } else { "" };
 
     let mut src = String::from("#![allow(warnings)]\nuse crate::rt;\nuse ::core::marker::PhantomData;\n#[derive(Debug, Clone, PartialEq)] pub struct N(pub i32);\n#[derive(Debug, Clone, PartialEq)] pub struct S { pub a: i32 }\n");
+    src.push_str("pub trait Proj { type Out: ::core::fmt::Debug; const NAME: &'static str; }\nimpl Proj for u16 { type Out = i32; const NAME: &'static str = \"u16\"; }\n");
     if sup_same_name {
         src.push_str(&format!("pub trait Sup {{ fn {}(&self) -> u8 {{ 0 }} }}\nimpl<T> Sup for ::entrait::Impl<T> {{}}\n", methods[0].name));
     } else {
@@ -404,8 +412,9 @@ pub fn gen_case(t: &mut Tape) -> Case {
         src.push_str("    }\n");
     }
     if phantom {
-        src.push_str("    {\n        let _ = rt::take();\n        let direct = Tr::sized::<(u8, bool), 5>(provider(&app), 9);\n        let t_direct = rt::take();\n");
-        src.push_str("/*GEN*/ let via = Tr::sized::<(u8, bool), 5>(&app, 9);\n        let t_via = rt::take();\n");
+        let tf = if phantom_proj { "u16" } else { "(u8, bool), 5" };
+        src.push_str(&format!("    {{\n        let _ = rt::take();\n        let direct = Tr::sized::<{tf}>(provider(&app), 9);\n        let t_direct = rt::take();\n"));
+        src.push_str(&format!("/*GEN*/ let via = Tr::sized::<{tf}>(&app, 9);\n        let t_via = rt::take();\n"));
         src.push_str("/*GEN*/ rt::expect_eq(&mut fails, \"method with type/const parameters named by the caller only: result through Impl<T> vs the provider\", &via, &direct);\n");
         src.push_str("/*GEN*/ rt::expect_eq(&mut fails, \"method with type/const parameters named by the caller only: call trace\", &t_via, &t_direct);\n");
         src.push_str("        if t_direct.len() != 1 { fails.push(format!(\"HARNESS: sized traced {} entries on the provider\", t_direct.len())); }\n");
@@ -477,7 +486,9 @@ pub fn gen_case(t: &mut Tape) -> Case {
     if attr_from_call {
         classes.push("trait_in_macro_rules_attribute_from_the_invocation");
     }
-    if phantom {
+    if phantom_proj {
+        classes.push("method_type_parameter_mentioned_only_through_an_associated_type");
+    } else if phantom {
         classes.push("method_generics_named_by_caller_only");
     }
     if selfless {
@@ -502,7 +513,9 @@ pub fn gen_case(t: &mut Tape) -> Case {
         classes.push(if use_async_trait { "async_with_async_trait" } else { "async_static" });
     }
     let mut extras: Vec<&str> = vec![];
-    if phantom {
+    if phantom_proj {
+        extras.push("fn sized<W: Proj>(&self, x: W::Out) -> String");
+    } else if phantom {
         extras.push("fn sized<W: Debug + Default, const K: usize>(&self, x: i32) -> String");
     }
     if selfless {
